@@ -96,6 +96,8 @@ typedef enum {
   vvmi,
   yyyi,
   yymi,
+  // a single immediate operand (e.g. a jump displacement)
+  im,
 
 } operand_format;
 
